@@ -86,6 +86,9 @@ def stage_py(kind, name, it, log):
                 if fn(x):
                     yield x
         return gen()
+    if kind == "tfilter":
+        # `it ? int` over ints keeps everything (and pulls lazily, like the other stages)
+        return (x for x in it)
     raise ValueError(kind)
 
 
@@ -94,6 +97,8 @@ def stage_ast(kind, name, e):
         return ["bin", "@", e, V(name)]
     if kind == "filter":
         return ["bin", "?", e, V(name)]
+    if kind == "tfilter":
+        return ["tfilter", e, name]
     raise ValueError(kind)
 
 
@@ -112,6 +117,7 @@ def run(rep, tier):
         seqs += [[rnd.randrange(-3, 9) for _ in range(rnd.randrange(0, 7))] for _ in range(25)]
     stages_all = [("map", "f"), ("map", "g"), ("filter", "p"), ("filter", "q")]
     pipelines = [[]] + [[s] for s in stages_all] + [list(x) for x in itertools.product(stages_all, repeat=2)]
+    pipelines += [[("tfilter", "int")], [("map", "f"), ("tfilter", "int")], [("tfilter", "int"), ("filter", "p")]]
     if tier == "thorough":
         pipelines += [list(x) for x in itertools.product(stages_all, repeat=3)][::3]
     consumers = ["collect", "partition", "reduce", "$+", "$*", "$&", "$|", "all", "any", "for", "for-break", "step2"]
@@ -205,11 +211,86 @@ def run(rep, tier):
                         expect.append(f"ok (tup {res} {show_list(log)})")
                     lines.append(E(tail))
                     progs.append(lines)
+    # every pipeline expression evaluated MORE THAN ONCE (a function called twice, a loop body run
+    # twice): each evaluation must enumerate the whole source again -- an iterator object that is
+    # built once (folded into the tree, cached in the instruction) shows here
+    twice_progs, twice_expect = [], []
+    for xs in seqs:
+        for pipe in [[]] + [[s] for s in stages_all] + [[("tfilter", "int")], [("tfilter", "int"), ("map", "f")]]:
+            for cons, ty in (("collect", ["arr", "int"]), ("$+", "int"), ("reduce", "int"), ("for", "int")):
+                for shape in ("fn-twice", "loop-twice", "captured-array"):
+                    log = []
+                    results = []
+                    for _ in range(2):
+                        it = src_array(xs, log)
+                        for kind, name in pipe:
+                            it = stage_py(kind, name, it, log)
+                        if cons == "collect":
+                            results.append(show_list(list(it)))
+                        elif cons == "$+":
+                            acc = 0
+                            for x in it:
+                                acc = wrap(acc + x)
+                            results.append(f"(i {acc})")
+                        elif cons == "reduce":
+                            acc = 7
+                            for x in it:
+                                log.append(500 + x)
+                                acc = wrap(acc * 2 - x)
+                            results.append(f"(i {acc})")
+                        else:
+                            acc = 0
+                            for x in it:
+                                log.append(600 + x)
+                                acc = wrap(acc + x)
+                            results.append(f"(i {acc})")
+                    src = arr(xs) if xs else ["bin", "+", ["array"], ["slice", ["array", I(1)], I(0), I(0), None]]
+                    lines = list(PRELUDE)
+                    if shape == "captured-array":
+                        lines.append(["set", "data", ["expr", src]])
+                        e = ["post", V("data"), "~"]
+                    else:
+                        e = ["post", src, "~"]
+                    for kind, name in pipe:
+                        e = stage_ast(kind, name, e)
+                    if cons == "collect":
+                        body = [ret(["post", e, "$]"])]
+                    elif cons == "$+":
+                        body = [ret(["post", e, "$+"])]
+                    elif cons == "reduce":
+                        body = [ret(["reduce", e, I(7), V("r")])]
+                    else:
+                        body = [["set", "acc", ["expr", ["mut", None, I(0)]]],
+                                ["stm", ["for", "x", e, ["block",
+                                         E(["bin", "+=", V("log"), ["array", ["bin", "+", I(600), V("x")]]]),
+                                         E(["bin", "+=", V("acc"), V("x")])]]],
+                                ret(["pre", "deref", V("acc")])]
+                    if shape == "loop-twice":
+                        # the same expression sits in a loop body that runs twice
+                        lines.append(["set", "out", ["expr", ["mut", ["arr", ty], ["array"]]]])
+                        lines.append(["set", "k", ["expr", ["mut", None, I(0)]]])
+                        lines.append(["stm", ["while", ["bin", "<", ["pre", "deref", V("k")], I(2)], ["block",
+                                      E(["bin", "+=", V("k"), I(1)]),
+                                      E(["bin", "+=", V("out"), ["array", ["call", ["fn", [], ty, body]]]])]]])
+                        lines.append(E(["tuple", ["pre", "deref", V("out")], ["pre", "deref", V("log")]]))
+                        twice_expect.append(f"ok (tup (arr {results[0]} {results[1]}) {show_list(log)})")
+                    else:
+                        lines.append(["fndecl", "run1", [], ty, body])
+                        lines.append(["set", "res", ["expr", ["tuple", ["call", V("run1")], ["call", V("run1")]]]])
+                        lines.append(E(["tuple", V("res"), ["pre", "deref", V("log")]]))
+                        twice_expect.append(f"ok (tup (tup {results[0]} {results[1]}) {show_list(log)})")
+                    twice_progs.append(lines)
     # thin out in the quick tier
     if tier != "thorough":
         keep = [k for k in range(len(progs)) if k % 3 == 0 or len(progs[k]) < 0]
         progs = [progs[k] for k in keep]
         expect = [expect[k] for k in keep]
+        keep = [k for k in range(len(twice_progs)) if k % 2 == 0]
+        twice_progs = [twice_progs[k] for k in keep]
+        twice_expect = [twice_expect[k] for k in keep]
+    rep.count("L11.twice", len(twice_progs))
+    progs += twice_progs
+    expect += twice_expect
     mo, io = l7_programs.run_programs(rep, progs, "L11")
     plain = l7_programs.untyped(io)
     for k, p in enumerate(progs):
